@@ -288,7 +288,8 @@ def _check(ctx, case, doc):
     nodes = doc.nodes(attrs=False)
     rctx = ref_xpath.Context(doc.root, 1, 1, {}, NS, {})
     visited = ref_xpath.evaluate(ref_xpath.parse(case['visit']), rctx)
-    r = ctx.drv.call('transform', xsl=stylesheet(case).encode('utf-8'), xml=case['xml'].encode('utf-8'))
+    # followup=2: the same transformation is run a second time on the same XalanTransformer (a new source tree, the same counters)
+    r = ctx.drv.call('transform', xsl=stylesheet(case).encode('utf-8'), xml=case['xml'].encode('utf-8'), followup=2)
     any_from = any(i.get('level') == 'any' and 'from' in i for i in case['instrs'])
     ctx.note(case, any_from or len(visited) >= 5,
              ['visited>=5' if len(visited) >= 5 else 'visited<5'] + ['level:%s' % (i.get('level') or ('value' if 'value' in i else 'default')) for i in case['instrs']] +
@@ -300,6 +301,10 @@ def _check(ctx, case, doc):
         err = r.gets('err') or ''
         return {'what': 'transformation-failed', 'err': err[:300], 'instrs': _clean(case['instrs']), 'pi': 'processing-instruction' in err}
     out = (r.get('out') or b'').decode('utf-8')
+    if r.gets('g.rc') != '0' or (r.get('g.out') or b'') != (r.get('out') or b''):
+        # "does not depend on which nodes were numbered before": not on those of an earlier transformation of the same transformer either
+        return {'what': 'second-transformation-differs', 'instrs': _clean(case['instrs']), 'visit': case['visit'], 'first': out[:300],
+                'second': (r.get('g.out') or b'').decode('utf-8', 'replace')[:300], 'g.err': (r.gets('g.err') or '')[:200]}
     per_order = {}
     for line in out.split('\n'):
         m = re.match(r'O(\d+) N([^=]+)=(.*)$', line, re.S)
